@@ -78,9 +78,14 @@ def job(args):
                 combos = combos[: 12 if tier == "quick" else 60]
             lists.extend(list(c) for c in combos)
         for coords in lists:
-            values = [float(rng.choice([1, 2, -1, 0.5, -2])) for _ in coords]
-            if coords and rng.random() < 0.15:
-                values[0] = 0.0
+            # distinct powers of two: every subset of the supplied values has a different sum, so a
+            # dropped, duplicated or overwritten contribution always shows
+            values = [float(2 ** k) for k in range(len(coords))]
+            r = rng.random()
+            if coords and r < 0.1:
+                values[0] = 0.0  # an explicit zero
+            elif len(coords) > 1 and r < 0.2:
+                values[1] = -values[0]  # cancellation to zero when the two coordinates coincide
             want = expected_dok(coords, values)
             res["evals"] += 1
             if coords:
